@@ -679,9 +679,11 @@ def cli_scope(res, pid, rng, tier):
         files_in = {"r1.cfg": text}
         if pid == "C17" and r % 2 == 1:
             files_in["blob.bin"] = "\udcff\udcfe binary"       # written as undecodable bytes: this file fails, the map must still be complete
+        stale_dump_used = stale
         status, outs, dumptext = run_cli(argv, files_in, want_dump=(pid in ("C17", "C03")), stale_dump=stale)
         if pid in ("C17", "C03") and dumptext:
-            stale = dumptext                # the next run finds this run's map at the same path
+            # the next run finds this run's map at the same path - and longer than its own will be
+            stale = dumptext + "".join("203.0.113.%d\t198.51.100.%d\n" % (i, i) for i in range(80))
         res.evaluations += 1
         meta = {"argv": argv, "cfg": fc.describe()}
         if status != "ok" or "r1.cfg" not in outs:
@@ -746,6 +748,11 @@ def cli_scope(res, pid, rng, tier):
                                       anonymized=t.format(a=tok or "?"), undone=lb, expected=want, undo_argv=uargv))
         if pid == "C17" and dumptext is not None:
             pairs = [ln.split("\t") for ln in dumptext.splitlines()]
+            bad = [ln for ln, p in zip(dumptext.splitlines(), pairs) if len(p) != 2]
+            if bad:
+                fails.append(dict(meta, kind="the dump file contains a line that is not `original<TAB>replacement` (torn or left over from an earlier file)",
+                                  bad_lines=bad[:3], stale_dump_before_the_run=bool(stale_dump_used)))
+            pairs = [p for p in pairs if len(p) == 2]
             ks = [p[0] for p in pairs]
             vs = [p[1] for p in pairs]
             if len(set(ks)) != len(ks) or len(set(vs)) != len(vs):
